@@ -229,7 +229,7 @@ fn fv_kind(v: &FormulaValue) -> &'static str {
 
 fn gen_sweep(ctx: &Ctx, sink: &mut dyn FnMut(String)) {
     let mut rng = Rng::new(ctx.seed ^ 0xC08);
-    let tuples = if ctx.tier == Tier::Thorough { 600 } else { 16 };
+    let tuples = if ctx.tier == Tier::Thorough { 200 } else { 16 };
     let mut names: Vec<String> = all_function_names();
     for op in OPS {
         names.push(format!("op:{op}"));
